@@ -15,5 +15,6 @@ CONSTANTS
   Modes = {"entity", "cdata"}
   W <- WFixed
   RootKinds = {"inst", "class", "ipath", "cpath", "prop", "pval", "qual", "qdecl", "meth", "parm"}
+  EmbPaths = FALSE
 INVARIANT NormIdempotent
 CHECK_DEADLOCK FALSE
